@@ -154,13 +154,15 @@ def work_fault(case: Any) -> Any:
         oc = sqlite3.connect(path)
         before = (schema(oc), versions(oc))
         oc.close()
-        w = {"start": start[0], "fault": "schema_operation_refused"}
-        desc = f"start={start} fault at schema operation #{fault_at}"
+        bookkeeping = _tag == "fault_bookkeeping"  # the fault hits the f-th write of a version row instead (lock taken by another writer, disk full)
+        w = {"start": start[0], "fault": "version_row_write_refused" if bookkeeping else "schema_operation_refused"}
+        desc = f"start={start} fault at " + (f"version-row write #{fault_at}" if bookkeeping else f"schema operation #{fault_at}")
         conn = sqlite3.connect(path)
         seen = {"n": 0}
 
         def authorizer(action: int, a1: Any, a2: Any, db: Any, src: Any) -> int:
-            if action in SCHEMA_ACTIONS:
+            hit = (action == sqlite3.SQLITE_INSERT and a1 == "schema_migrations") if bookkeeping else (action in SCHEMA_ACTIONS)
+            if hit:
                 seen["n"] += 1
                 if seen["n"] == fault_at:
                     return sqlite3.SQLITE_DENY
@@ -379,6 +381,8 @@ def run(tier: str, seed: int) -> Any:
     # fault injection: every schema-changing operation of every starting point refused once (positions beyond the last
     # operation of a run are vacuous and counted as trivial)
     cases += [(s, "fault", f) for s in starts for f in range(1, _schema_ops_of_fresh_run() + 2)]
+    # ... and every write of a version row refused once (the statement between a migration's schema changes and its being recorded)
+    cases += [(s, "fault_bookkeeping", f) for s in starts for f in range(1, 6)]
     # two migration sources (what the DBOS runtime passes), also after a server-only run brought the server part up to date
     cases += [(s, tag, first) for s in starts for first in (False, True) for tag in ("multi", "multi_rev")]
     return run_grid(PID, RULE, cases, work, seed=seed, chunksize=2, assumptions=[
